@@ -423,6 +423,8 @@ func outcomeClass(a, b string) string {
 			return "panic"
 		case strings.HasPrefix(s, "patched"):
 			return "patched"
+		case strings.HasPrefix(s, "first{"):
+			return "evalmut"
 		}
 		if i := strings.IndexByte(s, '('); i > 0 {
 			return s[:i]
